@@ -49,7 +49,7 @@ def _inode_spans(data):
 class Config:
     def __init__(self, levels=1, z=False, ndisks=2, blocksize=1, hashsize=16, hashkind="murmur3",
                  splits=None, parity_limit=None, contents=None, autosave_at=None, nohidden=False,
-                 rules=(), pool=False, disknames=None, extra_conf=(), tag="", uuid=False):
+                 rules=(), pool=False, disknames=None, extra_conf=(), tag="", uuid=False, selftest=False):
         self.levels = levels
         self.z = z
         self.ndisks = ndisks
@@ -66,6 +66,7 @@ class Config:
         self.disknames = list(disknames or ["d%d" % (i + 1) for i in range(ndisks)])
         self.extra_conf = list(extra_conf)
         self.tag = tag
+        self.selftest = selftest    # commands run WITHOUT --test-skip-self (the start-up self test changes global raid state)
         self.uuid = uuid        # the first two data disks report a (fake) persistent UUID: the tool then trusts inode numbers
 
     def level_name(self, l):
@@ -77,7 +78,7 @@ class Config:
         return dict(levels=self.levels, z=self.z, ndisks=self.ndisks, disknames=self.disknames, blocksize=self.blocksize,
                     hashsize=self.hashsize, hashkind=self.hashkind, splits={str(k): v for k, v in self.splits.items()},
                     contents=self.contents, parity_limit=self.parity_limit, autosave_at=self.autosave_at,
-                    nohidden=self.nohidden, rules=self.rules, pool=self.pool, extra_conf=self.extra_conf, tag=self.tag, uuid=getattr(self, "uuid", False))
+                    nohidden=self.nohidden, rules=self.rules, pool=self.pool, extra_conf=self.extra_conf, tag=self.tag, uuid=getattr(self, "uuid", False), selftest=getattr(self, "selftest", False))
 
     @staticmethod
     def from_dict(d):
@@ -97,12 +98,14 @@ class Config:
             s += "/" + self.tag
         if getattr(self, "uuid", False):
             s += "/uuid"
+        if getattr(self, "selftest", False):
+            s += "/selftest"
         return s
 
     def clone(self, **kw):
         c = Config(self.levels, self.z, self.ndisks, self.blocksize, self.hashsize, self.hashkind, self.splits,
                    self.parity_limit, self.contents, self.autosave_at, self.nohidden, self.rules, self.pool,
-                   self.disknames, self.extra_conf, self.tag, getattr(self, "uuid", False))
+                   self.disknames, self.extra_conf, self.tag, getattr(self, "uuid", False), getattr(self, "selftest", False))
         for k, v in kw.items():
             setattr(c, k, v)
         return c
@@ -512,6 +515,9 @@ class Lab:
     def base_opts(self, cmd=None):
         o = ["--test-skip-device", "--test-skip-self", "--no-warnings", "--test-force-order-alpha",
              "-c", self.conf_path()]
+        if getattr(self, "selftest", False) or getattr(self.cfg, "selftest", False):
+            # run like a user does: the start-up self test of the raid / hash code is NOT skipped (about 0.2 s per command)
+            o.remove("--test-skip-self")
         hk = self.cfg.hashkind
         if cmd == "rehash":   # a migration needs a "best" hash different from the current one
             hk = {"murmur3": "spooky2", "spooky2": "murmur3"}.get(hk, hk)
